@@ -546,6 +546,15 @@ def settings_world(run, rng, idx, front, configure, rerun_setters, order=None, l
             horizon = go_silent + (max(Tconn, Ttemp) + 1536) // dt + 8
             for rec in (idle, silent):
                 rec["hc"].client.setKeepAliveInterval(K / T)
+        # the CLIENT's own message time-out is independent of every liveness setting: in half of the worlds the idle client sets
+        # one BELOW the server's keep-alive interval, so that the acknowledgement of its CHALLENGE_RESP (piggy-backed on the
+        # server's first keep-alive) arrives after the client has declared that datagram timed out — the link must stay up
+        if idx % 2 == 0:
+            below = [v for v in (150, 300, 750, 1500, 3840) if v < K]
+            if below:
+                idle["hc"].client.setMessageTimeout(below[-1] / T)
+                base["idle_client_message_timeout"] = below[-1]
+                run.count("settings_worlds_client_message_timeout_below_server_keep_alive")
         settings_seen = False
         for st in range(horizon):
             if st == go_silent:
